@@ -1,4 +1,4 @@
-import SSV.Proofs.StreamAuth
+import SSV.Proofs.StreamHandshake
 /-
 C02 — Tampered, spliced or foreign SS2022 TCP traffic is never delivered as data.
 Property theorems only (lemmas: SSV/Proofs/StreamAuth.lean). The attacker is an arbitrary wire.
@@ -75,9 +75,49 @@ theorem reader_chunk_aligned (C : Crypto) (k : Bytes) (n0 : Nat) (cs : List Byte
     ∃ j, (delivered ++ (r.step C op).1.bytes) ++ (r.step C op).2.left = (cs.take j).flatten :=
   (step_inv hA hv r delivered hi op).1
 
+/-- **no_request_without_key**: if `HandleStream` produces a request, then the fixed-length and the
+variable-length header both opened (nonces 0 and 1) under the session key of a PSK the server holds
+— its own, or that of the user the request is attributed to — for the salt on the wire; under the
+unforgeability hypothesis for that key, both were sealed by the genuine holder of the key
+(`honest 0`, `honest 1`), and target and payload are the ones in that genuine header. A handshake
+altered anywhere in these two chunks, or made under a key the server does not hold, cannot yield a
+request. -/
+theorem no_request_without_key (C : Crypto) (cfg : ServerCfg) (now : Int) (segs : List Bytes)
+    (req : Request) (r : Reader) (salt upsk : Bytes)
+    (h : handle C cfg now segs = .request req r salt upsk)
+    (honest : Nat → Option Bytes) (hA : AeadAuth C (C.kdf upsk salt) honest) :
+    KeyHeld cfg upsk req.user ∧
+    ∃ fh vh, honest 0 = some fh ∧ honest 1 = some vh ∧ parseVarHeader vh = .ok (req.addr, req.payload) ∧
+      r.key = C.kdf upsk salt ∧ r.nonce = 2 ∧ r.left = [] := by
+  obtain ⟨ct, c2, fh, vh, h0, h1, hp, hk, e1, e2, e3⟩ := handle_request_authentic C cfg now segs req r salt upsk h
+  exact ⟨hk, fh, vh, hA.uf _ _ _ h0, hA.uf _ _ _ h1, hp, e1, e2, e3⟩
+
+/-- **fallback_untouched**: the bytes handed to the fallback destination are a prefix of the bytes
+received, unmodified (no in-place decryption before authentication). -/
+theorem fallback_untouched (C : Crypto) (cfg : ServerCfg) (now : Int) (segs : List Bytes) (p : Bytes)
+    (h : handle C cfg now segs = .fallback p) : ∃ rest, received segs = p ++ rest :=
+  handle_fallback_prefix C cfg now segs p h
+
+/-- **response_bound**: a client's first `Read` returns data only if the response header opened under
+the client's own key and carries the client's own request salt; under the unforgeability hypothesis
+the genuine server sealed exactly that header, i.e. in answer to this request. A response recorded
+from another session (other request salt, or other key) is rejected. -/
+theorem response_bound (C : Crypto) (c : CReader) (now : Int) (n : Nat) (bs : Bytes)
+    (hc : c.r = none) (h : (c.read C now n).1 = .data bs)
+    (honest : Bytes → Nat → Option Bytes) (hA : ∀ salt', AeadAuth C (C.kdf c.psk salt') (honest salt')) :
+    ∃ salt' hd, honest salt' 0 = some hd ∧ (hd.headD 0).toNat = HeaderTypeServerStream ∧
+      (hd.drop 9).take c.reqSalt.length = c.reqSalt := by
+  obtain ⟨ct, salt', hd, h0, h1, h2⟩ := first_read_bound C c now n bs hc h
+  exact ⟨salt', hd, (hA salt').uf _ _ _ h0, h1, h2⟩
+
+example (honest : Nat → Option Bytes) : ∃ C, ∀ k, AeadAuth C k honest := ⟨authCrypto honest, authCrypto_auth honest⟩
+
 end SSV.C02
 
 #print axioms SSV.C02.authCrypto_auth
 #print axioms SSV.C02.reader_prefix
 #print axioms SSV.C02.reader_fails_on_alteration
 #print axioms SSV.C02.reader_chunk_aligned
+#print axioms SSV.C02.no_request_without_key
+#print axioms SSV.C02.fallback_untouched
+#print axioms SSV.C02.response_bound
